@@ -63,6 +63,10 @@ func behave(t *f1testing.T, k int) {
 		panic(map[string]int{"x": 1})
 	case 20:
 		panic(struct{ xs []int }{[]int{1}})
+	case 21:
+		t.Error(nil) // an Error variant, whatever the value
+	case 22:
+		t.Fatal(nil)
 	}
 }
 
@@ -70,7 +74,7 @@ type fieldErrors []string
 
 func (f fieldErrors) Error() string { return "invalid fields" }
 
-const nkinds = 21
+const nkinds = 23
 
 func TestC07Runs(t *testing.T) {
 	o := kit.Get()
